@@ -196,36 +196,36 @@ theorem rt_update_HOk (cfg : Cfg) (s0 s2 : State) (g : Group) (clr : Bool)
 
 
 /-- the state of `group2` after toggle detection -/
-def g2s2 (s : State) (g : Group) : State :=
+def c04_g2s2 (s : State) (g : Group) : State :=
   let flag := g.b / 16 % 2
   let sw := decide (g.eb = 0) && ((flag : Int) != s.lastRt)
   let clr := sw && s.lastRt != -1 && getAvailable (s.rt flag)
   let s1 := if clr then s.setRt flag (s.rt flag).cleared else s
   if sw then { s1 with lastRt := flag } else s1
 
-theorem group2_eq (cfg : Cfg) (s : State) (g : Group) :
+theorem c04_group2_eq (cfg : Cfg) (s : State) (g : Group) :
     group2 cfg s g =
-      if g.eb != 0 && ((g.b / 16 % 2 : Nat) : Int) != (g2s2 s g).lastRt && (g2s2 s g).lastRt != -1
-      then (g2s2 s g, [])
+      if g.eb != 0 && ((g.b / 16 % 2 : Nat) : Int) != (c04_g2s2 s g).lastRt && (c04_g2s2 s g).lastRt != -1
+      then (c04_g2s2 s g, [])
       else
         let u1 := if !g.versionB
-          then parserUpdate cfg (g2s2 s g).set ((g2s2 s g).rt (g.b / 16 % 2)) .rt g.c g.eb g.ec (4 * (g.b % 16))
-          else ((g2s2 s g).rt (g.b / 16 % 2), false)
-        let u2 := parserUpdate cfg (g2s2 s g).set u1.1 .rt g.d g.eb g.ed
+          then parserUpdate cfg (c04_g2s2 s g).set ((c04_g2s2 s g).rt (g.b / 16 % 2)) .rt g.c g.eb g.ec (4 * (g.b % 16))
+          else ((c04_g2s2 s g).rt (g.b / 16 % 2), false)
+        let u2 := parserUpdate cfg (c04_g2s2 s g).set u1.1 .rt g.d g.eb g.ed
           (if !g.versionB then 4 * (g.b % 16) + 2 else 2 * (g.b % 16))
-        ((g2s2 s g).setRt (g.b / 16 % 2) u2.1,
+        ((c04_g2s2 s g).setRt (g.b / 16 % 2) u2.1,
           if clr2 s g || u1.2 || u2.2
-          then emit ((g2s2 s g).setRt (g.b / 16 % 2) u2.1) .rt (.rt (g.b / 16 % 2)) else []) := rfl
+          then emit ((c04_g2s2 s g).setRt (g.b / 16 % 2) u2.1) .rt (.rt (g.b / 16 % 2)) else []) := rfl
 
-theorem g2s2_of_eb {s : State} {g : Group} (h : g.eb ≠ 0) : g2s2 s g = s := by
-  simp [g2s2, h]
+theorem g2s2_of_eb {s : State} {g : Group} (h : g.eb ≠ 0) : c04_g2s2 s g = s := by
+  simp [c04_g2s2, h]
 
 theorem g2s2_facts (s : State) (g : Group) :
-    (∀ c, (g2s2 s g).registered c = s.registered c) ∧ (g2s2 s g).used = s.used ∧
-    (g2s2 s g).ps = s.ps ∧ (g2s2 s g).ptyn = s.ptyn ∧
-    (g.b / 16 % 2 ≠ 0 → (g2s2 s g).rt0 = s.rt0) ∧ (g.b / 16 % 2 = 0 → (g2s2 s g).rt1 = s.rt1) ∧
-    (clr2 s g = false → (g2s2 s g).rt (g.b / 16 % 2) = s.rt (g.b / 16 % 2)) := by
-  unfold g2s2 clr2
+    (∀ c, (c04_g2s2 s g).registered c = s.registered c) ∧ (c04_g2s2 s g).used = s.used ∧
+    (c04_g2s2 s g).ps = s.ps ∧ (c04_g2s2 s g).ptyn = s.ptyn ∧
+    (g.b / 16 % 2 ≠ 0 → (c04_g2s2 s g).rt0 = s.rt0) ∧ (g.b / 16 % 2 = 0 → (c04_g2s2 s g).rt1 = s.rt1) ∧
+    (clr2 s g = false → (c04_g2s2 s g).rt (g.b / 16 % 2) = s.rt (g.b / 16 % 2)) := by
+  unfold c04_g2s2 clr2
   simp only
   generalize (decide (g.eb = 0) && ((g.b / 16 % 2 : Nat) : Int) != s.lastRt) = sw
   generalize (sw && s.lastRt != -1 && getAvailable (s.rt (g.b / 16 % 2))) = clr
@@ -234,8 +234,8 @@ theorem g2s2_facts (s : State) (g : Group) :
 
 theorem HOk_group2 (cfg : Cfg) (s : State) (g : Group) :
     HOk [rtComp g] (if clr2 s g then [rtComp g] else []) s (group2 cfg s g) := by
-  rw [group2_eq]
-  by_cases hg : (g.eb != 0 && ((g.b / 16 % 2 : Nat) : Int) != (g2s2 s g).lastRt && (g2s2 s g).lastRt != -1) = true
+  rw [c04_group2_eq]
+  by_cases hg : (g.eb != 0 && ((g.b / 16 % 2 : Nat) : Int) != (c04_g2s2 s g).lastRt && (c04_g2s2 s g).lastRt != -1) = true
   · rw [if_pos hg]
     have heb : g.eb ≠ 0 := by
       intro h; simp [h] at hg
@@ -245,7 +245,7 @@ theorem HOk_group2 (cfg : Cfg) (s : State) (g : Group) :
     exact HOk_mono (HOk_id s) (by rfl)
   · rw [if_neg hg]
     obtain ⟨a, b, c, d, e, f, h⟩ := g2s2_facts s g
-    exact rt_update_HOk cfg s (g2s2 s g) g (clr2 s g) a b c d e f h _ _ rfl rfl
+    exact rt_update_HOk cfg s (c04_g2s2 s g) g (clr2 s g) a b c d e f h _ _ rfl rfl
 
 /-! ## PS, PTYN, CT -/
 theorem HOk_psStage (cfg : Cfg) (s : State) (w eb ex pos : Nat) :
